@@ -32,8 +32,8 @@ package contentstream
 //@   ensures reject_filters: !pdfHexDigit(b) ==> filters.hexDigitToByte$1(b)
 
 // Parser well-formedness and frame
-//@ spec func pinv(p Parser) bool = 0 <= p.pos && p.pos <= len(p.data)
-//@ spec func psame(p Parser, q Parser) bool = same(p.data, q.data) && same(p.ops, q.ops) && same(p.operands, q.operands)
+//@ spec func pinv(p Parser) bool = 0 <= p.pos && p.pos <= len(p.data) && p.depth >= 0
+//@ spec func psame(p Parser, q Parser) bool = same(p.data, q.data) && same(p.ops, q.ops) && same(p.operands, q.operands) && p.depth == q.depth
 
 //@ func (*Parser) skipWhitespace
 //@   property C02, C06
@@ -115,10 +115,15 @@ package contentstream
 //@     step earlier_output_kept: forall k int :: {result[k]} 0 <= k && k < prev(len(result)) ==> result[k] == prev(result)[k]
 //@     decreases len(p.data) - p.pos
 
-// operand parsing is mutually recursive; measure = (bytes left, rank)
+// operand parsing is mutually recursive; measure = (bytes left, rank); the number of open arrays/dictionaries - the
+// recursion depth - is bounded by maxNestingDepth whatever the stream contains, and balanced on every exit (psame)
+//@ func (*Parser) enterNested
+//@   flags inline
 //@ func (*Parser) parseOperand results (obj, err)
 //@   property C02
 //@   requires pinv(p)
+//@   callsite parseArray() requires nesting_is_bounded: 1 <= p.depth && p.depth <= maxNestingDepth
+//@   callsite parseDict() requires nesting_is_bounded: 1 <= p.depth && p.depth <= maxNestingDepth
 //@   decreases len(p.data) - p.pos, 2
 //@   ensures pinv(p) && psame(p, old(p)) && p.pos >= old(p.pos) && (!err ==> p.pos > old(p.pos))
 //@   loop 0:
